@@ -6,6 +6,8 @@ package main
 import (
 	"encoding/json"
 	"fmt"
+	"io/ioutil"
+	"log"
 	"sort"
 	"strings"
 	"sync"
@@ -13,6 +15,7 @@ import (
 	"testing"
 	"time"
 
+	"git.torproject.org/pluggable-transports/snowflake.git/v2/common/bridgefingerprint"
 	"github.com/anishathalye/porcupine"
 	"verif/vlib"
 )
@@ -68,7 +71,16 @@ func genHistory(r *vlib.Rand, ctxID int) *hHistory {
 		if r.Chance(1, 4) {
 			n = 32
 		}
-		h.Bridges = append(h.Bridges, vBridge{FP: randFP(r, n), URL: fmt.Sprintf("wss://bridge-%d-%d.example.net/%x", ctxID, k, r.Intn(1<<16))})
+		br := vBridge{FP: randFP(r, n), URL: fmt.Sprintf("wss://bridge-%d-%d.example.net/%x", ctxID, k, r.Intn(1<<16))}
+		// records that leave members out: no relay address (absent or null) means
+		// that bridge has none - not the one of the record before it
+		if k > 0 && r.Chance(1, 3) {
+			br.Sparse = r.Range(1, 3)
+			if br.Sparse != 3 {
+				br.URL = ""
+			}
+		}
+		h.Bridges = append(h.Bridges, br)
 	}
 	if r.Chance(2, 3) {
 		h.Bridges = append(h.Bridges, vBridge{FP: vDefaultFP, URL: fmt.Sprintf("wss://default-%d.example.net/", ctxID)})
@@ -242,6 +254,9 @@ func checkC02(res *vlib.Result, h *hHistory, b *vBroker) {
 		// (3) relay URL delivered with the offer
 		for _, p := range handed {
 			matched++
+			if url == "" {
+				res.Obs("matches_for_a_bridge_whose_record_has_no_relay_address", 1)
+			}
 			if p.Res.RelayURL != url {
 				res.Violatef("c02:wrong-relay-url", h, "offer of client naming %s delivered with relay URL %q, configured %q", named, p.Res.RelayURL, url)
 			}
@@ -666,6 +681,40 @@ func checkOddNAT(res *vlib.Result, r *vlib.Rand, ctxID int) {
 	}
 }
 
+// checkFingerprintlessRecord: a list one of whose records has no fingerprint
+// is refused as a whole (that is what the loader documents); whatever a
+// loader does with it, no fingerprint may end up bound to the relay address of
+// another record.
+func checkFingerprintlessRecord(res *vlib.Result, r *vlib.Rand, ctxID int) {
+	res.Eval(1)
+	fa, fb := randFP(r, 20), randFP(r, 20)
+	ua, ux, ub := fmt.Sprintf("wss://a-%d.example.net/", ctxID), fmt.Sprintf("wss://x-%d.example.net/", ctxID), fmt.Sprintf("wss://b-%d.example.net/", ctxID)
+	lacking := []string{
+		`{"displayName":"x","webSocketAddress":"` + ux + `"}`,
+		`{"displayName":"x","webSocketAddress":"` + ux + `","fingerprint":null}`,
+		`{"webSocketAddress":"` + ux + `"}`,
+	}[r.Intn(3)]
+	list := string(vBridge{FP: fa, URL: ua}.line()) + lacking + "\n" + string(vBridge{FP: fb, URL: ub}.line())
+	ctx := NewBrokerContext(log.New(ioutil.Discard, "", 0))
+	err := ctx.InstallBridgeListProfile(strings.NewReader(list), "example.net$", "example.net$")
+	rec := map[string]interface{}{"case": fmt.Sprintf("fingerprintless/%d", ctxID), "list": list, "load_error": fmt.Sprint(err)}
+	res.Obs("lists_with_a_record_lacking_its_fingerprint", 1)
+	if err != nil {
+		res.Obs("lists_with_a_record_lacking_its_fingerprint_refused", 1)
+		return
+	}
+	for _, x := range []struct{ fp, url string }{{fa, ua}, {fb, ub}} {
+		f, ferr := bridgefingerprint.FingerprintFromHexString(x.fp)
+		if ferr != nil {
+			continue
+		}
+		info, gerr := ctx.GetBridgeInfo(f)
+		if gerr == nil && info.WebSocketAddress != x.url {
+			res.Violatef("c02:bridge-bound-to-another-records-relay-url", rec, "after loading a list with a fingerprint-less record, bridge %s is bound to relay %q; its own record says %q", x.fp, info.WebSocketAddress, x.url)
+		}
+	}
+}
+
 func TestVerifC02(t *testing.T) { runC02C03(t, "C02") }
 func TestVerifC03(t *testing.T) { runC02C03(t, "C03") }
 
@@ -788,12 +837,18 @@ func runC02C03(t *testing.T, prop string) {
 		res.RequireObs("denials_pool_unrestricted", 1)
 		res.RequireObs("denials_pool_restricted-or-unknown", 1)
 	} else {
+		for i := 0; i < vlib.Scale(12, 60); i++ {
+			if i%nshards == shard {
+				checkFingerprintlessRecord(res, root.SplitN("fingerprintless", i), 140000+i)
+			}
+		}
 		res.RequireObs("matched_pairs", int64(len(hs)))
 		res.RequireObs("clients_answered_post", 1)
 		res.RequireObs("clients_answered_legacy", 1)
 		res.RequireObs("clients_answered_amp", 1)
 		res.RequireObs("clients_naming_absent_fingerprint", 1)
 		res.RequireObs("late_answers_posted", 1)
+		res.RequireObs("lists_with_a_record_lacking_its_fingerprint", 1)
 	}
 	res.RequireObs("histories_with_overlapping_matches", int64(len(hs)*4/10))
 	res.RequireObs("histories_with_long_session_ids_sharing_a_prefix", int64(len(hs)/8))
